@@ -8,13 +8,13 @@ if [ $# -gt 0 ]; then ids="$@"; else
   ids=$(ls $V/$dir | sort)
 fi
 export SC3D_DEV_CACHE=${SC3D_DEV_CACHE:-/tmp/sc3dcache}; mkdir -p $SC3D_DEV_CACHE
-i=0; for id in $ids; do echo $id >> /tmp/sweep_shard_$((i % N)).lst; i=$((i+1)); done
+i=0; for id in $ids; do echo $id >> /tmp/sweep_${kind}_shard_$((i % N)).lst; i=$((i+1)); done
 for k in $(seq 0 $((N-1))); do
-  [ -f /tmp/sweep_shard_$k.lst ] || continue
-  ( SWEEP_W=/tmp/${kind}run_$k python3 $V/tools/${kind}_sweep.py $(cat /tmp/sweep_shard_$k.lst) > /tmp/sweep_${kind}_$k.log 2>&1
+  [ -f /tmp/sweep_${kind}_shard_$k.lst ] || continue
+  ( SWEEP_W=/tmp/${kind}run_$k python3 $V/tools/${kind}_sweep.py $(cat /tmp/sweep_${kind}_shard_$k.lst) > /tmp/sweep_${kind}_$k.log 2>&1
     git -C /repo worktree remove --force /tmp/${kind}run_$k; rm -rf /tmp/${kind}run_${k}_evidence ) &
 done
 wait
-rm -f /tmp/sweep_shard_*.lst
+rm -f /tmp/sweep_${kind}_shard_*.lst
 cat /tmp/sweep_${kind}_*.log | sort
 find $SC3D_DEV_CACHE -maxdepth 1 -mmin +600 -exec rm -rf {} + 2>/dev/null
